@@ -192,11 +192,13 @@ func DefaultAuthorizeSSHRenew(_ context.Context, p *Controller, cert *ssh.Certif
 	}
 
 	unixNow := time.Now().Unix()
-	if after := cast.Int64(cert.ValidAfter); after < 0 || unixNow < cast.Int64(cert.ValidAfter) {
+	if after, err := cast.SafeInt64(cert.ValidAfter); err != nil || unixNow < after {
 		return errs.Unauthorized("certificate is not yet valid")
 	}
-	if before := cast.Int64(cert.ValidBefore); cert.ValidBefore != uint64(ssh.CertTimeInfinity) && (unixNow >= before || before < 0) && !p.Claimer.AllowRenewalAfterExpiry() {
-		return errs.Unauthorized("certificate has expired")
+	if cert.ValidBefore != uint64(ssh.CertTimeInfinity) && !p.Claimer.AllowRenewalAfterExpiry() {
+		if before, err := cast.SafeInt64(cert.ValidBefore); err != nil || unixNow >= before {
+			return errs.Unauthorized("certificate has expired")
+		}
 	}
 
 	return nil
